@@ -364,6 +364,11 @@ def _make_cloud(rng, cls, d):
         ni = int(rng.integers(20, 200))
         I = rng.dirichlet(np.ones(k0) * rng.uniform(0.3, 3), ni) @ V
         P = np.vstack([V, I])
+        for _ in range(int(rng.integers(0, 8))):  # points (nearly) collinear with two vertices, on / next to an edge
+            a, b = rng.choice(k0, 2, replace=False)
+            p = V[a] + rng.uniform(0.1, 0.9) * (V[b] - V[a])
+            eps = [0.0, 1e-15, 1e-13, 1e-11, 1e-9, 1e-7][rng.integers(6)]
+            P = np.vstack([P, p + eps * rng.normal(0, 1, d)])
         if rng.integers(2):                      # duplicated rows (vertices and interior points)
             P = np.vstack([P, P[rng.integers(len(P), size=5)]])
         P = P[rng.permutation(len(P))]
